@@ -605,7 +605,7 @@ func TestC11Layers(t *testing.T) {
 		w.closers = append(w.closers, func() { _ = eng.E.Close() })
 		putAll(objs, func(o *Obj) error { return eng.E.Put(context.Background(), o.O, nil) }, "engine")
 		if flushFirst {
-			if err := eng.E.FlushWriteCaches(); err != nil {
+			if err := eng.E.FlushWriteCache(eng.IDs[1]); err != nil {
 				fatalEnv("engine flush: %v", err)
 			}
 		}
